@@ -708,6 +708,96 @@ func main() {
 		}
 	}
 
+	// 6. missing nodes (direct judgement, Lean: missing_node_is_reported): commit a trie, flush it to disk, delete ONE node
+	//    blob from the disk database, reopen over a fresh node database: every TryGet / TryUpdate / TryDelete must either
+	//    fail with a MissingNodeError or behave exactly as on the intact trie — never return a wrong value, never panic.
+	r6 := rng.Fork(6)
+	nMiss := 150
+	if run.Thorough() {
+		nMiss = 5000
+	}
+	for i := 0; i < nMiss; i++ {
+		w := newWorld(false, r6)
+		keys := genKeys(r6, r6.Intn(4))
+		ref := map[string][]byte{}
+		var desc []string
+		for _, k := range keys {
+			v := genVal(r6)
+			w.t.TryUpdate(k, v)
+			ref[string(k)] = v
+			desc = append(desc, "u:"+hx.Hex(k)+":"+hx.Hex(v))
+		}
+		root, _ := w.t.Commit(nil)
+		w.tdb.Commit(root, false)
+		dk := w.disk.Keys()
+		sort.Slice(dk, func(a, b int) bool { return bytes.Compare(dk[a], dk[b]) < 0 })
+		if len(dk) == 0 {
+			continue
+		}
+		victim := dk[r6.Intn(len(dk))]
+		w.disk.Delete(victim)
+		input := map[string]interface{}{"history": strings.Join(desc, "|"), "deleted_node": hx.Hex(victim)}
+		run.Current(fmt.Sprint(input))
+		res := hx.Safe(func() string {
+			t2, err := trie.New(root, trie.NewDatabase(w.disk))
+			if err != nil {
+				if _, ok := err.(*trie.MissingNodeError); !ok {
+					return "bad-error-type " + err.Error()
+				}
+				return "root-missing"
+			}
+			probe := append([][]byte{}, keys...)
+			probe = append(probe, genKeys(r6, r6.Intn(4))...)
+			missing := 0
+			for _, k := range probe {
+				v, err := t2.TryGet(k)
+				if err != nil {
+					if _, ok := err.(*trie.MissingNodeError); !ok {
+						return "bad-error-type " + err.Error()
+					}
+					missing++
+					continue
+				}
+				if !bytes.Equal(v, ref[string(k)]) {
+					return fmt.Sprintf("wrong-value key=%x got=%x want=%x", k, v, ref[string(k)])
+				}
+			}
+			// mutate through the damaged trie: an operation either reports the missing node or takes effect exactly
+			for _, k := range probe[:len(probe)/2] {
+				var err error
+				if r6.Bool() {
+					nv := genVal(r6)
+					if err = t2.TryUpdate(k, nv); err == nil {
+						ref[string(k)] = nv
+					}
+				} else {
+					if err = t2.TryDelete(k); err == nil {
+						delete(ref, string(k))
+					}
+				}
+				if err != nil {
+					if _, ok := err.(*trie.MissingNodeError); !ok {
+						return "bad-error-type " + err.Error()
+					}
+				}
+			}
+			for _, k := range probe {
+				v, err := t2.TryGet(k)
+				if err == nil && !bytes.Equal(v, ref[string(k)]) {
+					return fmt.Sprintf("wrong-value-after-update key=%x got=%x want=%x", k, v, ref[string(k)])
+				}
+			}
+			if missing == 0 {
+				return "ok-unaffected"
+			}
+			return "ok-missing-reported"
+		})
+		run.Count("missing-node:" + strings.Fields(res)[0])
+		if !strings.HasPrefix(res, "ok-") && res != "root-missing" {
+			run.Violate("missing-node-misbehaviour", "missing-node", input, res)
+		}
+	}
+
 	// a run that produced (almost) no cases is a broken correspondence, never a pass
 	minCases := 3000
 	if run.NCases < minCases || st.proofs < 100 || run.Hist["derivesha"] < 20 {
